@@ -15,14 +15,14 @@ def plan(tier, seed):
     for di in range(0, len(docs), step):
         for v in cover.variants(docs[di], seed * 7919 + di)[:2]:
             units.append(dict(hfile='isolation.py', fname='c17_forms_doc', args=(v,)))
-    for ai in range(7):
-        for bi in range(7):
+    for ai in range(8):
+        for bi in range(8):
             if tier == 'quick' and (ai + bi) % 2 and ai != bi:
                 continue
             units.append(dict(hfile='isolation.py', fname='c17_isolation', args=(ai, bi)))
     return dict(units=units,
                 bounds={'input_forms': 'str vs list/tuple at 5 split points, 3-chunk generator, list of characters, single-element list, io.StringIO; FREE(0..%d) (with and without line feeds; LF-free for the file form) and every %dth skeleton of the cover (2 split points there)' % (nmax, step),
-                        'isolation': '7x7 ordered pairs (quick: half of them) of hole documents (one with unbraced arguments of fixed-signature commands): parse B, parse+edit A, parse B, edit second B tree, parse B',
+                        'isolation': '8x8 ordered pairs (quick: half of them) of hole documents (one with unbraced arguments of fixed-signature commands): parse B, parse+edit A, parse B, edit second B tree, parse B',
                         'hash_seeds': 'sizing prefix + FREE(2), $ sizing FREE a $, FREE(3), skeleton subset explored in fresh interpreters per seed; partition equivalence with seed 0 decided by z3'},
                 outside=['file objects with universal-newline translation', 'strings longer than the bounds'],
                 assumptions=['PYTHONHASHSEED is the only source of iteration-order nondeterminism'])
